@@ -143,6 +143,7 @@ func classify(applies bool, p interface{}, err error) string {
 }
 
 func keyHeader(s string) string { return "X-Key-" + s }
+func keyParam(s string) string  { return "key_" + s }
 
 // authenticator for one scheme: a logging wrapper around either a scripted function or the real
 // security.APIKeyAuth (credentials looked up in the request).
@@ -162,6 +163,26 @@ func authenticator(scheme, kind string, fixed *outcome) runtime.Authenticator {
 		inner = security.APIKeyAuth(keyHeader(scheme), "header", func(token string) (interface{}, error) {
 			_, p, err := script().result()
 			return p, err
+		})
+	case "apikeyq":
+		// the real api-key authenticator reading the QUERY: here the token itself decides (the request carries the
+		// key in the query according to the scripted outcome; a form body may carry a field of the same name)
+		inner = security.APIKeyAuth(keyParam(scheme), "query", func(token string) (interface{}, error) {
+			o := script()
+			switch token {
+			case "tok-ok":
+				if o.K == "ok" {
+					return o.P, nil
+				}
+				return "p" + scheme, nil
+			case "tok-nilp":
+				return nil, nil
+			}
+			if o.K == "rej" {
+				_, _, err := o.result()
+				return nil, err
+			}
+			return nil, stderrors.New("rej-" + scheme)
 		})
 	default:
 		inner = runtime.AuthenticatorFunc(func(interface{}) (bool, interface{}, error) { return script().result() })
@@ -231,6 +252,9 @@ func buildDoc(d M) ([]byte, error) {
 	for _, s := range strs(d["schemes"]) {
 		if !undef[s] {
 			defs[s] = M{"type": "apiKey", "in": "header", "name": keyHeader(s)}
+			if drv.Str(drv.Map(d["kinds"])[s]) == "apikeyq" {
+				defs[s] = M{"type": "apiKey", "in": "query", "name": keyParam(s)}
+			}
 		}
 	}
 	reqs := requirements(d["alts"])
@@ -379,8 +403,30 @@ func request(d M, out map[string]outcome, variant, target string) *http.Request 
 	if variant == "query" {
 		url = "/" + target + "?p=x"
 	}
-	req := httptest.NewRequest(http.MethodPost, url, strings.NewReader(`{"a":1}`))
-	req.Header.Set("Content-Type", "application/json")
+	kinds := drv.Map(d["kinds"])
+	body, ctype := `{"a":1}`, "application/json"
+	form := []string{}
+	for _, s := range strs(d["schemes"]) {
+		if drv.Str(kinds[s]) != "apikeyq" {
+			continue
+		}
+		// credentials of a query api key travel in the query ...
+		if o, ok := out[s]; ok && o.K != "na" {
+			url += "&" + keyParam(s) + "=tok-" + o.K
+		}
+		// ... a form body field that happens to have the key's name is not a credential
+		switch variant {
+		case "formvalid":
+			form = append(form, keyParam(s)+"=tok-ok")
+		case "forminvalid":
+			form = append(form, keyParam(s)+"=tok-bad")
+		}
+	}
+	if variant == "formvalid" || variant == "forminvalid" {
+		body, ctype = strings.Join(append(form, "other=1"), "&"), "application/x-www-form-urlencoded"
+	}
+	req := httptest.NewRequest(http.MethodPost, url, strings.NewReader(body))
+	req.Header.Set("Content-Type", ctype)
 	req.Header.Set("Accept", "application/json")
 	switch variant {
 	case "ctype":
@@ -388,7 +434,6 @@ func request(d M, out map[string]outcome, variant, target string) *http.Request 
 	case "accept":
 		req.Header.Set("Accept", "text/x-verif-unknown")
 	}
-	kinds := drv.Map(d["kinds"])
 	for s, o := range out {
 		if drv.Str(kinds[s]) == "apikey" && o.K != "na" {
 			req.Header.Set(keyHeader(s), "token-"+o.K)
@@ -471,7 +516,7 @@ func execute(c *drv.Ctx, d M) (nontrivial bool) {
 
 // ---- generation -------------------------------------------------------------
 
-var variants = []string{"good", "query", "ctype", "accept"}
+var variants = []string{"good", "query", "ctype", "accept", "formvalid", "forminvalid"}
 
 func perms(n int) [][]int {
 	if n == 0 {
@@ -537,7 +582,7 @@ func structureOf(schemes []string, alts, avail, authz any, idx int) M {
 	}
 	undef := []string{}
 	for i, s := range schemes {
-		kinds[s] = []string{"func", "apikey"}[(idx/3+i)%2]
+		kinds[s] = []string{"func", "apikey", "apikeyq"}[(idx/3+i)%3]
 		if !av[s] && (idx/6+i)%2 == 0 {
 			undef = append(undef, s) // no securityDefinition at all (otherwise: defined, never registered)
 		}
